@@ -1,6 +1,7 @@
 import Proofs.C14
 import Proofs.TieCell
 import Proofs.TieImages
+import Proofs.SrcC14
 #print axioms PV.Proofs.C14.toCart_linear
 #print axioms PV.Proofs.C14.toCart_add
 #print axioms PV.Proofs.C14.position_affine
@@ -28,3 +29,5 @@ import Proofs.TieImages
 #print axioms PV.Proofs.Tie.to_cartesian_isometry_tie
 #print axioms PV.Proofs.Tie.to_cartesian_translate_tie
 #print axioms PV.Proofs.Tie.periodic_images_tie
+#print axioms PV.Proofs.Source.C14_source_images
+#print axioms PV.Proofs.Source.C14_source_area
